@@ -83,6 +83,7 @@ func c12Ops(r *verifh.Rng, n, interval int, g c12GenCfg) []string {
 	}
 	var ops []string
 	arms := 0                 // scripts registered so far (see the arm class below)
+	big := false              // the big re-entrant Drain class is used once per section
 	abs := 0                  // ticks issued so far
 	phys := map[int]int{}     // key -> absolute tick at which the slot it was last placed in is scanned
 	tick := func(c int) {
@@ -218,11 +219,33 @@ func c12Ops(r *verifh.Rng, n, interval int, g c12GenCfg) []string {
 			default:
 				set(k)
 			}
+		case x == 66 && g.api && !big:
+			// Drain with more pending timers than drainWorkers whose callbacks all call back into the wheel (what
+			// cleaner.go's clean does at shutdown): the hand-off to the workers must not block the run loop
+			big = true
+			m := r.Pick(9, 9, 10, 12, 17, 30)
+			for i := 0; i < m; i++ {
+				kk := 200 + i
+				switch r.Intn(5) {
+				case 0:
+					ops = append(ops, fmt.Sprintf("arm %d remove %d", kk, kk))
+				case 1:
+					ops = append(ops, fmt.Sprintf("arm %d move %d %d", kk, kk, delay(kk)))
+				default:
+					ops = append(ops, fmt.Sprintf("arm %d set %d %d %d", kk, kk, r.Intn(1000), delay(kk)))
+				}
+				ops = append(ops, fmt.Sprintf("set %d %d %d", kk, r.Intn(1000), delay(kk)))
+			}
+			if r.Chance(1, 3) {
+				someTicks()
+			}
+			ops = append(ops, "drain")
+			someTicks()
 		case x >= 60 && x < 66 && g.api && arms < 6:
 			// a callback (execute or Drain) that calls back into the wheel while it runs: it re-arms its own key
 			// (cleaner.go's clean), removes it (cache.go's expiry callback), moves it (a no-op: the key is gone), or
 			// touches a key of its own (100+k; a delay below one interval there runs a nested callback at once).
-			// At most 6 scripts per section: more than drainWorkers-1 blocked Drain callbacks stall the run loop.
+			// (the class above covers many such callbacks in one Drain)
 			arms++
 			tgt := k
 			if r.Chance(1, 3) {
@@ -453,6 +476,16 @@ func (s *c12Sink) exec(k, v any) {
 	s.mu.Lock()
 	s.inner = append(s.inner, fmt.Sprintf("in%d=%s", ki, res))
 	s.mu.Unlock()
+}
+
+// entered / returned: callbacks that have started / whose inner call (if any) has returned
+func (s *c12Sink) progress() (entered, returned, waiting int) {
+	s.mu.Lock()
+	defer s.mu.Unlock()
+	for _, q := range s.arms {
+		waiting += len(q)
+	}
+	return len(s.fired), len(s.inner), waiting
 }
 
 func (s *c12Sink) arm(k int, call []string) {
@@ -727,6 +760,7 @@ func TestVerifC12(t *testing.T) {
 			}
 			return false, "undelivered"
 		}
+		pendingBefore := 0
 		step := func(op []string) string {
 			if hung {
 				return "TIMEOUT-skipped"
@@ -751,6 +785,7 @@ func TestVerifC12(t *testing.T) {
 					return note
 				}
 			case "drain":
+				pendingBefore = tw.timers.Size() // the run loop is idle: the previous operation has been joined
 				call(func() error { return tw.Drain(sink.exec) })
 			case "arm":
 				if len(op) < 4 || (op[2] != "set" && op[2] != "move" && op[2] != "remove") {
@@ -780,6 +815,12 @@ func TestVerifC12(t *testing.T) {
 			for round, last := 0, -1; round < 8; round++ {
 				waitLoop()
 				if hung {
+					if op[0] == "drain" {
+						// stuck watchdog: the run loop accepted Drain and no longer accepts anything
+						entered, returned, _ := sink.progress()
+						return fmt.Sprintf("STALLED drain: run loop blocked, %d of %d pending timers reached their callback, only %d callbacks returned from their call on the wheel",
+							entered, pendingBefore, returned)
+					}
 					return "TIMEOUT-loop"
 				}
 				if !verifh.SettleGoroutines(base, 5*time.Second) {
